@@ -22,6 +22,11 @@ structure VG where
   src : Nat
   tar : Nat
   pen : Rat
+  /-- `VertInf::orthogVisPropFlags` per vertex (XL_EDGE=1, XH_EDGE=4, YL_EDGE=16, YH_EDGE=64) -/
+  flags : Array Nat := #[]
+  /-- apply the turn-pruning rule of `AStarPathPrivate::search` (makepath.cpp, "orthogonal routing
+      optimisation") as written in the clean source -/
+  prune : Bool := false
   deriving Repr, Inhabited
 
 def VG.n (g : VG) : Nat := g.xs.size
@@ -48,9 +53,33 @@ def inRange (g : VG) (s : VState) : Prop := s.v < g.n ∧ s.h < 4
 
 instance (g : VG) (s : VState) : Decidable (inRange g s) := by unfold inRange; infer_instance
 
+/-- The documented turn-pruning rule: at vertex `v`, entered with heading `h`, the hop in heading
+    `d` is skipped when it is a quarter turn that neither heads beside a shape edge
+    (`orthogVisPropFlags`) nor happens in line with the target, unless `v` still lies on the row
+    (for turns off a horizontal segment) resp. column (off a vertical segment) of the source.
+      horizontal → vertical (h ∈ {E,W}, d ∈ {N,S}): needs y_v = y_src ∨ flag YL/YH ∨ x_v = x_tar
+      vertical → horizontal (h ∈ {N,S}, d ∈ {E,W}): needs x_v = x_src ∨ flag XL/XH ∨ y_v = y_tar -/
+def pruned (g : VG) (h v d : Nat) : Bool :=
+  let x := g.xs.getD v 0
+  let y := g.ys.getD v 0
+  let f := g.flags.getD v 0
+  if (h = 1 ∨ h = 3) ∧ (d = 0 ∨ d = 2) then
+    decide (y ≠ g.ys.getD g.src 0) && decide (f &&& (if d = 0 then 16 else 64) = 0) &&
+      decide (x ≠ g.xs.getD g.tar 0)
+  else if (h = 0 ∨ h = 2) ∧ (d = 1 ∨ d = 3) then
+    decide (x ≠ g.xs.getD g.src 0) && decide (f &&& (if d = 3 then 1 else 4) = 0) &&
+      decide (y ≠ g.ys.getD g.tar 0)
+  else false
+
+/-- is the hop from state `s` to neighbour `w` discarded by the pruning rule (when enabled)? -/
+def hopPruned (g : VG) (s : VState) (w : Nat) : Bool :=
+  g.prune && (match hop g s.v w with
+    | some (d, _) => pruned g s.h s.v d
+    | none => false)
+
 /-- the edge from state `s` to neighbour `w` -/
 def edge (g : VG) (s : VState) (w : Nat) : Option (VState × Rat) :=
-  if w = g.src ∨ ¬ w < g.n then none
+  if w = g.src ∨ ¬ w < g.n ∨ hopPruned g s w = true then none
   else
     match hop g s.v w with
     | none => none
